@@ -118,6 +118,21 @@ fn alpha_beta_search(
         return 0;
     }
 
+    // the per ply tables (principal variation, killer moves, current line) hold MAX_DEPTH entries
+    // and a null move adds 10 plies at once, a line that got this far from the root is not
+    // searched any deeper but settled by the quiescence search like any other leaf
+    if ply_from_root >= MAX_DEPTH as i32 {
+        return quiesce(
+            start,
+            time_to_move_ms,
+            board,
+            alpha,
+            beta,
+            search_info,
+            zobrist_hasher,
+        );
+    }
+
     draw_table.add_board_to_draw_table(board);
 
     if depth == 0 {
